@@ -240,7 +240,7 @@ LocRV(loc) == RV("loc", FALSE, 0, DZero, "", "", loc)
 Frame(n, loc, val, ob, ety, cl) ==
     [n |-> n, loc |-> loc, val |-> val, ob |-> ob, ety |-> ety, ph |-> cl.ph, pend |-> cl.pend, vi |-> cl.vi, det |-> cl.det,
      eloc |-> cl.eloc, okv |-> cl.okv, since |-> {}, brk |-> FALSE, fail |-> FALSE, res |-> <<>>, hand |-> <<>>,
-     rogue |-> FALSE, parsed |-> <<>>,
+     rogue |-> FALSE, parsed |-> <<>>, optv |-> {},
      fnp |-> NoFn, mapped |-> {}, mres |-> <<>>, vst |-> "none", fv |-> UnitRV, phb |-> cl.ph,
      fkeys |-> IF Nodes[n].c \in {"struct", "enum"} THEN KeysOf(Nodes[n], cl.vi) ELSE <<>>]
 
@@ -261,6 +261,8 @@ Child(F, ob) ==
                  IF fi = 0 THEN [has |-> FALSE, n |-> 0, loc |-> F.loc, val |-> NullV, ety |-> F.ety]
                  ELSE [has |-> TRUE, n |-> FieldsOfNode(N, F.vi)[fi].node, loc |-> Append(F.loc, KeyStep(m.k)), val |-> m.v,
                        ety |-> FieldsOfNode(N, F.vi)[fi].ety]
+      \* the value behind a map key that could not be parsed (see Candidates: it MAY be examined as well)
+      [] ob.o = "optval" -> [has |-> TRUE, n |-> N.kids[1], loc |-> Append(F.loc, KeyStep(F.val.e[ob.i].k)), val |-> F.val.e[ob.i].v, ety |-> F.ety]
       [] OTHER -> [has |-> FALSE, n |-> 0, loc |-> F.loc, val |-> NullV, ety |-> F.ety]
 
 \* total order on obligations used by the canonical (source order) schedule: members/elements by index, then missing checks
@@ -334,6 +336,7 @@ StartOf(F, ob, pk) ==
                  ELSE IF N.deny = "fn"
                  THEN {EvCall(N.denyfn, "deny", ob, <<StrRV(m.k), StrsRV(AcceptedK(N, F.vi, F.fkeys)), LocRV(F.loc)>>, "exact", 0, F.loc, F.ety)}
                  ELSE {Ev("err", 0, F.loc, ob, Det("unknownkey", NullV, AcceptedK(N, F.vi, F.fkeys), "", m.k, "", 0, ""), a, TRUE, UnitRV, <<>>, F.ety) : a \in Answers}
+      [] ob.o = "optval" -> {Ev("enter", ch.n, ch.loc, ob, NoDet, "", TRUE, UnitRV, <<>>, ch.ety)}
       [] ob.o = "handover" ->
             \* a child's error is handed to this frame's error type at the child's own position (any time before the frame returns)
             {Ev("mrg", 0, F.hand[ob.i].loc, ob, NoDet, a, TRUE, UnitRV, F.hand[ob.i].ids, F.ety) : a \in Answers}
@@ -382,9 +385,13 @@ Candidates(stack, cur) ==
             IF F.brk THEN exiterr                                     \* the stop was answered in this frame: it returns at once
             ELSE IF cur.stopped THEN                                  \* a stop was answered below and not overruled: only pass the error up
                  (UNION {StartOf(F, ob, cur.pk) : ob \in hs}) \cup (IF hs = {} THEN exiterr ELSE {})
-            ELSE IF F.pend = {} THEN (IF F.fail THEN exiterr ELSE PostSteps(F))
+            ELSE
+            \* Freedom (cur.lax): a map entry whose key could not be parsed is a fault of the key; the value behind it may be left
+            \* alone (the pinned code) or examined as well, any time before the map returns - its faults are real faults of the payload
+            LET opt == IF cur.lax THEN UNION {StartOf(F, Ob("optval", j), cur.pk) : j \in F.optv} ELSE {} IN
+            IF F.pend = {} THEN (IF F.fail THEN exiterr ELSE PostSteps(F)) \cup opt
             ELSE LET obs == IF cur.canonical THEN {CHOOSE ob \in F.pend : \A o2 \in F.pend : ObLeq(ob, o2)} ELSE F.pend
-                 IN UNION {StartOf(F, ob, cur.pk) : ob \in obs}
+                 IN UNION {StartOf(F, ob, cur.pk) : ob \in obs} \cup opt
       [] OTHER -> {}
 
 (* -------------------------------- update -------------------------------- *)
@@ -395,7 +402,7 @@ Pop(stack) == SubSeq(stack, 1, Len(stack) - 1)
 
 \* enter child: push a frame (obligation ob of the parent is now in flight)
 PushChild(stack, cur, n, loc, val, ob, ety) ==
-    LET par == [Top(stack) EXCEPT !.pend = @ \ {ob}]
+    LET par == [Top(stack) EXCEPT !.pend = @ \ {ob}, !.optv = IF ob.o = "optval" THEN @ \ {ob.i} ELSE @]
         cl  == Classify(n, val, loc, cur.pk)
         fr  == Frame(n, loc, val, ob, ety, cl)
         fr2 == IF IsMapTarget(Nodes[n]) /\ val.t = "map"
@@ -412,7 +419,8 @@ PushRoot(cur) ==
 AfterErr(stack, id, ob, a) ==
     LET s1 == AddSince(stack, id) F == Top(s1) IN
     SetTop(s1, IF F.ph \in {"bad", "jbad"} THEN [F EXCEPT !.ph = "fin", !.fail = TRUE]
-               ELSE [F EXCEPT !.pend = @ \ {ob}, !.fail = TRUE, !.brk = (a = "b")])
+               ELSE [F EXCEPT !.pend = @ \ {ob}, !.fail = TRUE, !.brk = (a = "b"),
+                              !.optv = IF ob.o = "entry" /\ IsMapTarget(Nodes[F.n]) THEN @ \cup {ob.i} ELSE @])
 
 AfterMrg(stack, ob, a) == SetTop(stack, [Top(stack) EXCEPT !.pend = @ \ {ob}, !.fail = TRUE, !.brk = (a = "b")])
 
@@ -504,7 +512,10 @@ Faults(n, val, loc, pk, fnf) ==
                             [] ob.o = "entry" ->
                                   IF IsMapTarget(N)
                                   THEN IF ParseKey(pk, N.name, val.e[ob.i].k).z = "some" THEN Faults(ch.n, ch.val, ch.loc, pk, fnf)
+                                       \* the key is the fault; when the run examined the value behind it as well (a fact of the run,
+                                       \* recorded in fnf like the failures of user functions), the value's faults count too
                                        ELSE <<Desc("unexpected", loc, "", 0, NullV, {})>>
+                                            \o (IF [f |-> "optval", loc |-> ch.loc, j |-> ob.i] \in fnf THEN Faults(ch.n, ch.val, ch.loc, pk, fnf) ELSE <<>>)
                                   ELSE IF ch.has
                                        THEN LET inner == Faults(ch.n, ch.val, ch.loc, pk, fnf)
                                                 fld == FieldsOfNode(N, cl.vi)[RouteK(N, cl.vi, F.fkeys, val.e[ob.i].k)]
